@@ -71,6 +71,16 @@ def observe_script(case):
     return {"script": ir_from_source.parse_init(C, init_name)}
 
 
+def defines(case):
+    """re-try the class definitions of a case the generator could not build; error text or None"""
+    ib._CACHE.clear()
+    try:
+        ib.build(case["hspec"])
+        return None
+    except Exception as e:  # noqa: BLE001
+        return f"{type(e).__name__}: {e}"
+
+
 def observe(case):
     if "__gen_error__" in case:
         raise RuntimeError("class spec did not define: " + case["__gen_error__"])
